@@ -13,3 +13,17 @@ int putchar(int c) { return c; }
 /* glibc's isfinite() expands to __builtin_isfinite, for which CBMC 6.11 has no body (it would return an arbitrary
  * value and mark the obligation "no-body"); exact IEEE definition */
 int __builtin_isfinite(double x) { return x == x && (x - x) == (x - x); }
+
+/* strdup by contract: a fresh copy of the text; allocation failure is outside the container property (setStr does not
+ * check the result either) */
+#include <stdlib.h>
+#include <string.h>
+char *strdup(const char *s)
+{
+  size_t n = strlen(s) + 1;
+  char *p = malloc(n);
+  __CPROVER_assume(p != NULL);
+  for(size_t i = 0; i < n; i++)
+    p[i] = s[i];
+  return p;
+}
